@@ -75,6 +75,9 @@ def load_findings():
     return json.load(open(p)).get('findings', [])
 
 
+SCALE = float(os.environ.get('VERIF_TIMEOUT_SCALE', '1'))     # development aid: scales every shard's time budget
+
+
 def main(argv):
     if argv and argv[0] == '--replay':
         rp = json.load(open(argv[1]))
@@ -98,6 +101,8 @@ def main(argv):
             j = dict(j)
             j.setdefault('module', modname)
             j['known_tags'] = known_tags
+            if SCALE != 1.0 and not j.get('twin'):
+                j['cond_timeout'] = max(20.0, float(j.get('cond_timeout', 60)) * SCALE)
             j.setdefault('name', f"{modname.split('.')[-1]}:{j['fn']}:{json.dumps(j.get('pin', {}), sort_keys=True)}" + (':twin' if j.get('twin') else ''))
             jobs.append(j)
         for f in getattr(mod, 'FUNCTIONS', []):
@@ -236,7 +241,7 @@ def main(argv):
             'shards': [{k: r.get(k) for k in ('shard', 'status', 'paths', 'queries', 'solver_s', 'wall_s', 'twin', 'points', 'detail') if r.get(k) is not None} for r in results],
             'shards_confirmed': sum(1 for r in main_r if r['status'] == 'CONFIRMED'),
             'shards_incomplete': incomplete, 'twins_refuted': sum(1 for r in results if r.get('twin') and r['status'] == 'REFUTED'),
-            'known_findings_seen': known_seen, 'harness_errors': harness_errors,
+            'known_findings_seen': known_seen, 'harness_errors': harness_errors, 'time_budget_scale': SCALE,
         },
         'assumptions': meta['assumptions'] + meta['stubs'],
         'wall_s': round(time.time() - t0, 1), 'violations': len(violations),
